@@ -138,6 +138,8 @@ type Exec struct {
 	analyzedFns map[*ssa.Function]bool
 	pruned int
 	pendingClo []Val
+	inlineDepth int
+	frameMode   bool
 }
 
 func (x *Exec) fresh(prefix string) string {
@@ -506,7 +508,7 @@ func (x *Exec) bornFact(st *State, v Val) {
 			x.assume(st, fmt.Sprintf("(< (born %s) %s)", v.S, st.now))
 		}
 	case "Slice":
-		x.assume(st, fmt.Sprintf("(and (< (born (s.arr %s)) %s) (>= (s.len %s) 0) (>= (s.off %s) 0) (<= (s.len %s) (s.cap %s)))", v.S, st.now, v.S, v.S, v.S, v.S))
+		x.assume(st, fmt.Sprintf("(and (< (born (s.arr %s)) %s) (>= (s.len %s) 0) (>= (s.off %s) 0) (<= (s.len %s) (s.cap %s)) (=> (= (s.arr %s) 0) (= %s (mk_slice 0 0 0 0))))", v.S, st.now, v.S, v.S, v.S, v.S, v.S, v.S))
 	case "Iface":
 		x.assume(st, fmt.Sprintf("(and (< (born (i.val %s)) %s) (>= (i.tag %s) 0) (=> (= (i.tag %s) 0) (= (i.val %s) 0)))", v.S, st.now, v.S, v.S, v.S))
 	}
@@ -755,6 +757,21 @@ func (x *Exec) callModifies(c *ssa.CallCommon, mods map[string]bool) bool {
 		all := false
 		for _, b := range callee.Blocks {
 			for _, in := range b.Instrs {
+				if x.frameMode {
+					// caller-visible frame only: fresh objects of the inlined callee do not count
+					switch i := in.(type) {
+					case *ssa.Alloc, *ssa.MakeMap, *ssa.MakeSlice, *ssa.MakeClosure, *ssa.MakeChan:
+						continue
+					case *ssa.Store:
+						if rootIsLocalAlloc(i.Addr) {
+							continue
+						}
+					case *ssa.MapUpdate:
+						if localMap(i.Map) {
+							continue
+						}
+					}
+				}
 				all = x.instrModifies(in, mods) || all
 			}
 		}
